@@ -96,6 +96,7 @@ def cli_clause(ctx, rnd, programs):
             return -9, "TIMEOUT", ""
     try:
         cmds = []
+        open(os.path.join(d, "empty.inc"), "w").close()           # a zero-length include file (the assemblies run with cwd = d)
         for k, lines in enumerate(programs):
             src = os.path.join(d, "p%d.asm" % k)
             open(src, "w").write("".join(lines))
@@ -113,7 +114,12 @@ def cli_clause(ctx, rnd, programs):
             outs = {"bin": os.path.join(d, "o%d.bin" % k), "cas": os.path.join(d, "o%d.cas" % k), "dsk": os.path.join(d, "o%d.dsk" % k)}
             pre = b"OLD" if k % 3 == 0 else None
             rc, err, out = results[k]
-            rec = asmio.assemble(list(lines))
+            cwd = os.getcwd()
+            os.chdir(d)                                            # (INCLUDE names are relative to the working directory)
+            try:
+                rec = asmio.assemble(list(lines))
+            finally:
+                os.chdir(cwd)
             n += 1
             created = [o for o in outs.values() if os.path.exists(o) and not (o == outs["bin"] and pre is not None)]
             modified = pre is not None and open(outs["bin"], "rb").read() != pre
@@ -156,6 +162,7 @@ def run(ctx):
         valid_cases.append(c)
         corpus.append(c.lines)
     asmcheck.run_suite(ctx, "valid-programs", valid_cases)
+    asmcheck.run_suite(ctx, "across-org", c03.across_org_cases(rnd, 10000 if thorough else 1500))
     muts = []
     for _ in range(400000 if thorough else 30000):
         lines = list(rnd.choice(corpus))
@@ -186,7 +193,8 @@ def run(ctx):
                        {"kind": "include", "main": t["linesA"], "files": t["files"]})
     ctx.add_suite("include-missing-and-cycles", len(ts), 0, time.time() - t0)
     # the CLI: diagnostic => exit != 0 and no output file
-    sample = [README] + [rnd.choice(muts) for _ in range(150 if thorough else 24)]
+    degenerate = [[], ["\n"], ["\n", "\n"], ["; only a comment\n"], ["* only a comment\n"], [" \n"], ["\t\n"], [" INCLUDE empty.inc\n", " NOP \n"], [" NOP \n", " INCLUDE empty.inc\n"]]
+    sample = [README] + degenerate + [rnd.choice(muts) for _ in range(150 if thorough else 24)]
     cli_clause(ctx, rnd, sample)
     ctx.cov["rule"] = ("sizing programs / PCR distance sweeps (loop termination), random valid programs, single-line mutations (delete/duplicate a field, empty operand, "
                        "unterminated string, stray punctuation) of the README example and of random valid programs, random lines over the source alphabet; each run "
